@@ -4,6 +4,7 @@
 package hx
 
 import (
+	"sync"
 	"bytes"
 	"fmt"
 	"sort"
@@ -35,8 +36,9 @@ func NewProgram(rules []*grl.Rule, st grl.Style) *Program {
 
 // Built is a library holding the program as knowledge base KB/1.
 type Built struct {
-	Lib  *ast.KnowledgeLibrary
-	Prog *Program
+	Lib     *ast.KnowledgeLibrary
+	Prog    *Program
+	cloneMu sync.Mutex
 }
 
 const KBName, KBVer = "KB", "1"
@@ -80,5 +82,32 @@ func (b *Built) Reloaded() (*Built, error) {
 }
 
 func (b *Built) Instance() (*ast.KnowledgeBase, error) {
+	return b.Lib.NewKnowledgeBaseInstance(KBName, KBVer)
+}
+
+// CloneOrders is the number of orders in which NewKnowledgeBaseInstance can visit the rules of
+// the blueprint (k! for k <= MaxPermRules rules, else 1 = sorted order only).
+func (b *Built) CloneOrders() int {
+	if !OrderControlled {
+		return 1
+	}
+	bp := b.Lib.GetKnowledgeBase(KBName, KBVer)
+	if n := len(bp.RuleEntries); n <= MaxPermRules {
+		return NPerms(n)
+	}
+	return 1
+}
+
+// InstanceOrd creates an instance whose rules are cloned in the ord-th permutation of the sorted
+// rule keys (0 = sorted; what the Go runtime's random map order decides in production).
+func (b *Built) InstanceOrd(ord int) (*ast.KnowledgeBase, error) {
+	if ord == 0 || !OrderControlled {
+		return b.Instance()
+	}
+	bp := b.Lib.GetKnowledgeBase(KBName, KBVer)
+	b.cloneMu.Lock()
+	defer b.cloneMu.Unlock()
+	setChooser(bp.RuleEntries, func(keys []string) []int { return permOf(len(keys), ord) })
+	defer setChooser(bp.RuleEntries, nil)
 	return b.Lib.NewKnowledgeBaseInstance(KBName, KBVer)
 }
